@@ -386,6 +386,10 @@ def prog_cases(tier):
             for s2 in _stmts(POOL + ["v1"], must_use="v1", U=REDUCED_U + ["mg.max({a}, axis=-1)", "{a}[[0, 0]]"],
                              B=REDUCED_B + ["mg.where(M, {a}, {b})"]):
                 progs.append("v1 = %s\nv2 = %s\nout = v2" % (s1, s2))
+    # the same programs with leaves that already hold a gradient from an earlier backward pass, for programs whose first statement
+    # is a view operation (view ops do not reset the gradients of their inputs)
+    isview = lambda st: any(k in st for k in (".T", "reshape(", "[0]", "[..., 1:]"))
+    progs += ["#PREGRAD\n" + p for p in progs if isview(p.split("\n")[0])][:: (1 if tier == "quick" else 3)]
     out = []
     size = 80
     for i in range(0, len(progs), size):
@@ -429,8 +433,11 @@ def run_prog_case(spec, tier, mg):
         if not _well_typed(mg, setup, body, SH):
             res["discarded"] += 1
             continue
+        pre = body.startswith("#PREGRAD\n")
+        if pre:
+            body = body[len("#PREGRAD\n"):]
         gs = {"name": "%s#%d" % (spec["name"], k), "leaves": [["x", list(SH["x"])], ["y", list(SH["y"])], ["z", list(SH["z"])]],
-              "carrs": [["c", list(SH["c"])]], "setup": setup, "body": body, "seed": "none"}
+              "carrs": [["c", list(SH["c"])]], "setup": setup, "body": body, "seed": "none", "pre_grads": pre}
         # tie regions of maximum/max carry no claim in C01 (C02 checks the conventions): not explored
         r = gradcase.run(gs, tier, PROP, mg, max_paths=600, max_seconds=120, timeout_ms=8000, skip_ties=True)
         res["ties_skipped"] = res.get("ties_skipped", 0) + r.get("ties_skipped", 0)
